@@ -332,6 +332,8 @@ func (c *c09) run(pc J2PCase) {
 	}
 	full := J2PCase{Schema: &c.env.schema, Text: text, Src: pc.Src, Disallow: pc.Disallow, Variant: pc.Variant}
 	opts := conv.Options{DisallowUnknownField: pc.Disallow}
+	// the visitor's state after every callback (verif hook), for documents the layer-2 model covers
+	traced := !pc.Disallow && pc.Variant != "mismatch" && c.cases%3 == 0
 	for _, api := range []string{"Do", "DoInto/0", "DoInto/prefix"} {
 		ev := map[string]interface{}{"ev": "J2P", "api": api, "d": d, "src": src, "variant": pc.Variant, "disallow": pc.Disallow,
 			"st": "ok", "ref": pNone(), "text": text, "case": full, "panicked": false, "srcb": srcb}
@@ -349,7 +351,21 @@ func (c *c09) run(pc J2PCase) {
 			in := []byte(text)
 			switch api {
 			case "Do":
+				var calls []map[string]interface{}
+				if traced {
+					j2p.VerifTrace = func(cb string, sp int, typ uint8, lenPos int, pending string, inskip bool, open int) {
+						calls = append(calls, map[string]interface{}{"cb": cb, "sp": sp, "typ": int(typ), "open": lenPos != -1, "pending": pending, "inskip": inskip, "nopen": open})
+					}
+				}
 				outb, err = cv.Do(context.Background(), c.env.droot, in)
+				j2p.VerifTrace = nil
+				if traced && len(calls) > 0 && len(calls) < 4000 {
+					st := "ok"
+					if err != nil {
+						st = "err"
+					}
+					defer c.out.Emit(map[string]interface{}{"ev": "J2PV", "st": st, "calls": calls, "text": text, "case": full})
+				}
 			case "DoInto/prefix":
 				prefix = "\x0a\x03abc"
 				buf := append(make([]byte, 0, 8), prefix...)
